@@ -826,6 +826,18 @@ def builder_view(f, var, scope=None):
             and len(fill.args) == 1:
         elem = fill.args[0]
         kind = 'set' if fill.func.attr == 'add' else 'list'
+    elif isinstance(fill, ast.AugAssign) and isinstance(
+            fill.op, ast.Add) and isinstance(
+                fill.value, ast.List) and len(fill.value.elts) == 1:
+        # xs += [e]
+        elem = fill.value.elts[0]
+        kind = 'list'
+    elif isinstance(fill, ast.AugAssign) and isinstance(
+            fill.op, ast.BitOr) and isinstance(
+                fill.value, ast.Set) and len(fill.value.elts) == 1:
+        # s |= {e}
+        elem = fill.value.elts[0]
+        kind = 'set'
     elif isinstance(fill, ast.Subscript) and isinstance(
             fill.ctx, ast.Store) and isinstance(
                 getattr(fill, '_parent', None), ast.Assign):
@@ -834,7 +846,7 @@ def builder_view(f, var, scope=None):
         kind = 'dict'
     else:
         return None
-    st = stmt_of(fill)
+    st = fill if isinstance(fill, ast.stmt) else stmt_of(fill)
     loops = []
     cur = getattr(st, '_parent', None)
     while cur is not None and cur is not f.node:
@@ -853,7 +865,9 @@ def builder_view(f, var, scope=None):
     # breaks change what is collected
     if any(isinstance(x, ast.Break) for x in ast.walk(outer)):
         return None
-    conds_ = conds(st, outer, implicit=True)
+    # what selects elements: enclosing tests and continue-guards; a guard
+    # that raises aborts the whole construction, it filters nothing
+    conds_ = skip_conds(st, outer)
     # single-assignment locals inside the loops
     local = {}
     for x in ast.walk(outer):
